@@ -128,6 +128,9 @@ func readHistories(path string) [][]string {
 	var hs [][]string
 	for sc.Scan() {
 		l := sc.Text()
+		if strings.HasPrefix(l, "#") || strings.TrimSpace(l) == "" {
+			continue
+		}
 		if strings.HasPrefix(l, "begin") || len(hs) == 0 {
 			hs = append(hs, nil)
 		}
@@ -137,7 +140,13 @@ func readHistories(path string) [][]string {
 	return hs
 }
 
+// Rewriter is implemented by runners that feed observations into the op lines the model consumes
+type Rewriter interface {
+	Rewrite(line string) string
+}
+
 type histResult struct {
+	ops   []string
 	out   []string
 	viols []Violation
 	tags  map[string]int
@@ -155,13 +164,23 @@ func runHistory(comp Component, idx int, h []string) (res histResult) {
 			for len(res.out) < len(h) {
 				res.out = append(res.out, "PANIC")
 			}
+			for len(res.ops) < len(h) {
+				res.ops = append(res.ops, h[len(res.ops)])
+			}
 		}
 	}()
 	r := comp.NewRunner(h[0])
 	defer r.Close()
 	res.out = append(res.out, "ok")
+	res.ops = append(res.ops, h[0])
+	rw, _ := r.(Rewriter)
 	for i := 1; i < len(h); i++ {
-		o := r.Exec(h[i])
+		line := h[i]
+		if rw != nil {
+			line = rw.Rewrite(line)
+		}
+		res.ops = append(res.ops, line)
+		o := r.Exec(line)
 		res.out = append(res.out, o)
 		for _, v := range r.Violations() {
 			v.History = idx
@@ -202,12 +221,18 @@ func runAll(name string, comp Component, hs [][]string, outDir string) {
 	f, err := os.Create(filepath.Join(outDir, "impl.out"))
 	must(err)
 	w := bufio.NewWriterSize(f, 1<<20)
+	f2, err := os.Create(filepath.Join(outDir, "ops.run.txt"))
+	must(err)
+	w2 := bufio.NewWriterSize(f2, 1<<20)
 	distinctOut := map[[8]byte]struct{}{}
 	distinctHist := map[[8]byte]struct{}{}
-	for i, h := range hs {
+	for i := range hs {
+		h := results[i].ops
 		rep.Histories++
 		hh := sha256.New()
 		for j, l := range h {
+			w2.WriteString(l)
+			w2.WriteByte('\n')
 			rep.Ops++
 			kind := l
 			if k := strings.IndexByte(l, ' '); k >= 0 {
@@ -239,6 +264,8 @@ func runAll(name string, comp Component, hs [][]string, outDir string) {
 	}
 	must(w.Flush())
 	must(f.Close())
+	must(w2.Flush())
+	must(f2.Close())
 	rep.DistinctOutputs = len(distinctOut)
 	rep.DistinctHist = len(distinctHist)
 	// samples: first history (truncated) and a middle one
